@@ -184,6 +184,16 @@ macro_rules! sweep_u {
                             chk!(ev, bad, first, "max", ai, bi, a.max(b), pa.max(pb));
                             chk!(ev, bad, first, "min", ai, bi, a.min(b), pa.min(pb));
                         }
+                        "c18" => {
+                            chk!(ev, bad, first, "Integer::gcd", ai, bi, num_integer::Integer::gcd(&a, &b), num_integer::Integer::gcd(&pa, &pb));
+                            chk!(ev, bad, first, "Integer::is_even", ai, bi, num_integer::Integer::is_even(&a), num_integer::Integer::is_even(&pa));
+                            if bi != 0 {
+                                chk!(ev, bad, first, "Integer::div_floor", ai, bi, num_integer::Integer::div_floor(&a, &b), num_integer::Integer::div_floor(&pa, &pb));
+                                chk!(ev, bad, first, "Integer::mod_floor", ai, bi, num_integer::Integer::mod_floor(&a, &b), num_integer::Integer::mod_floor(&pa, &pb));
+                                chk!(ev, bad, first, "Integer::div_rem", ai, bi, num_integer::Integer::div_rem(&a, &b), num_integer::Integer::div_rem(&pa, &pb));
+                                chk!(ev, bad, first, "Integer::is_multiple_of", ai, bi, num_integer::Integer::is_multiple_of(&a, &b), num_integer::Integer::is_multiple_of(&pa, &pb));
+                            }
+                        }
                         "c14" => {
                             chk!(ev, bad, first, "to_f32", ai, bi, F32(bnum::cast::As::as_::<f32>(a)), F32(pa as f32));
                             chk!(ev, bad, first, "to_f64", ai, bi, F64(bnum::cast::As::as_::<f64>(a)), F64(pa as f64));
@@ -329,6 +339,20 @@ macro_rules! sweep_i {
                                 chk!(ev, bad, first, "signum", ai, bi, a.signum(), pa.signum());
                                 chk!(ev, bad, first, "is_positive", ai, bi, a.is_positive(), pa.is_positive());
                                 chk!(ev, bad, first, "is_negative", ai, bi, a.is_negative(), pa.is_negative());
+                            }
+                        }
+                        "c18" => {
+                            let min_involved = pa == <$P>::MIN || pb == <$P>::MIN;
+                            if !min_involved {
+                                chk!(ev, bad, first, "Integer::gcd", ai, bi, num_integer::Integer::gcd(&a, &b), num_integer::Integer::gcd(&pa, &pb));
+                            }
+                            chk!(ev, bad, first, "Integer::is_odd", ai, bi, num_integer::Integer::is_odd(&a), num_integer::Integer::is_odd(&pa));
+                            if bi != 0 && !(pa == <$P>::MIN && pb == -1) {
+                                chk!(ev, bad, first, "Integer::div_floor", ai, bi, num_integer::Integer::div_floor(&a, &b), num_integer::Integer::div_floor(&pa, &pb));
+                                chk!(ev, bad, first, "Integer::mod_floor", ai, bi, num_integer::Integer::mod_floor(&a, &b), num_integer::Integer::mod_floor(&pa, &pb));
+                                chk!(ev, bad, first, "Integer::div_rem", ai, bi, num_integer::Integer::div_rem(&a, &b), num_integer::Integer::div_rem(&pa, &pb));
+                                chk!(ev, bad, first, "Integer::div_mod_floor", ai, bi, num_integer::Integer::div_mod_floor(&a, &b), num_integer::Integer::div_mod_floor(&pa, &pb));
+                                chk!(ev, bad, first, "Integer::is_multiple_of", ai, bi, num_integer::Integer::is_multiple_of(&a, &b), num_integer::Integer::is_multiple_of(&pa, &pb));
                             }
                         }
                         "c14" => {
